@@ -18,7 +18,7 @@ partition + a start position), fed with the harness-visible history only:
 Families
   A  inputs: every log of <= N stored batches over the 8 shapes on partition 0 x {start at 0, seek to every inner
      offset} x {response cut: explorer choice x<=1 around "everything", constant 1 batch per response}, budgets
-     x<=1 / r<=1.
+     x<=1 / r<=1; polled with getmany(), and with getone() for the one-batch-per-response walks.
   B  programs: every program of the stated sizes (quick: 1 task x 2 calls, 2 tasks x 1 call; thorough adds 1 x 3 and
      2 + 1) over the 11-letter call alphabet on representative logs, both baselines, both wake orders of blocked
      callers, single-deviation budgets (r, p, f, x).
@@ -112,6 +112,10 @@ def scenarios(ctx):
             base = {"logs": {"0": {"shapes": list(log)}, "1": P1_LOG}, "baseline": "net", "cuts": cuts,
                     "cut_choice": cuts is None}
             add(f"A/{lname}/{cname}/start", dict(base, program=[]), [{"x": 1}, {"r": 1}])
+            if cuts == 1:
+                # the same walk through the log with getone() (the hand-out path that takes one record at a time and must
+                # still move the position over a response that ends in offsets yielding no record)
+                add(f"A/{lname}/{cname}/start-getone", dict(base, program=[], drain_call="getone"), [{"r": 1}])
             for o in range(1, end + 1):
                 add(f"A/{lname}/{cname}/seek{o}", dict(base, program=[[SP(o)]]), [{"x": 1}, {"r": 1}] if cuts is None else [{"r": 1}])
     # ---- family B: every small program --------------------------------------------------------------------------
